@@ -370,7 +370,7 @@ func c20Stats(nsh, bound int) *explore.Scenario {
 			}
 			var plan []outcome
 			for _, k := range []string{"Unary", "Bidi", "SStream", "CStream"} {
-				for _, o := range []string{"ok", "herr", "cancel1", "cancel3", "deadline", "openfail", "reset", "lateempty", "sendfail"} {
+				for _, o := range []string{"ok", "herr", "herr-eof", "herr-wrapped-eof", "herr-plain", "herr-canceled", "cancel1", "cancel3", "deadline", "openfail", "reset", "lateempty", "sendfail"} {
 					if k == "Unary" && (o == "reset" || o == "lateempty" || o == "sendfail") {
 						continue
 					}
